@@ -133,3 +133,76 @@ def rule_loopload(ctx, R):
             expected='and-mask then or-mask on xmm4..xmm7 only', found={k: v for k, v in sorted(masked.items())})
     srcs = {(k, r) for v in masked.values() for k, r in v}
     R.check(len({r for k, r in srcs if k == 'an'}) == 1 and len({r for k, r in srcs if k == 'or'}) == 1, 'one and-mask and one or-mask register', src, expected='the same two mask registers for all four', found=sorted(srcs))
+
+
+def rule_dsitem(ctx, R):
+    import astq
+    R.rule('X86-DSITEM', 'the hand-written pieces of the x86-64 dataset-item code are the steps of specification 7.3: r8 = (item + 1) * [r0_mul], r(8+i) = [ri_add] ^ r8 with the i-th constant label; '
+           'line pointer = cache memory + (value & (CacheSize / 64 - 1)) * 64; r(8+i) ^= the i-th word of the line; the initialisation loop stores r8..r15 at output + 8i '
+           '(the values at the labels are SPEC-DSCONST\'s obligation)', min_instances=5)
+    FI = astq.Facts(ctx, 'K0')
+    cmask = FI.const('randomx::CacheSize') // 64 - 1
+    o = ctx.obj('x86')
+    R.saw(unit='src/jit_compiler_x86_static.S', config='K0')
+    src = 'src/jit_compiler_x86_static.S'
+    ins = o.between('randomx_sshash_init', 'randomx_program_end')
+    ins = ins[:next((k for k, i in enumerate(ins) if i[1] in ('jmp', 'ret')), len(ins))]
+
+    def ops(i):
+        return [x.strip() for x in re.sub(r'\s*#.*$', '', i[2]).split(',')]
+
+    def lab(i):
+        m = re.search(r'<([\w.]+)>', i[2])
+        return m.group(1) if m else None
+    # (a) register initialisation
+    r8 = {'lea': None, 'imul': None}
+    pairs = {}
+    cur = {}
+    for i in ins:
+        p = ops(i)
+        if i[1] == 'lea' and p[0] == 'r8':
+            r8['lea'] = p[1]
+        elif i[1] == 'imul' and p[0] == 'r8':
+            r8['imul'] = lab(i)
+        elif i[1] == 'mov' and re.match(r'^r(9|1[0-5])$', p[0]) and lab(i):
+            cur[p[0]] = lab(i)
+        elif i[1] == 'xor' and p[0] in cur and p[1] == 'r8':
+            pairs[p[0]] = cur[p[0]]
+    if r8['lea'] is None or r8['imul'] is None or len(pairs) != 7:
+        raise AnalysisBroken('X86-DSITEM: the register initialisation is not `lea r8, [..] ; imul r8, [label] ; 7 x (mov r, [label] ; xor r, r8)`')
+    R.check(r8['lea'] in ('[rbx+0x1]', '[rbx+1]') and r8['imul'] == 'r0_mul' and ins and [i[1] for i in ins if i[1] in ('lea', 'imul')] == ['lea', 'imul'], 'r8 = (item + 1) * [r0_mul]', src,
+            expected='lea r8, [rbx+1] ... imul r8, [r0_mul]', found=r8)
+    want = {'r%d' % (8 + k): 'r%d_add' % k for k in range(1, 8)}
+    R.check(pairs == want, 'r(8+i) = [ri_add] ^ r8', src, expected=want, found=pairs)
+
+    # line pointer pieces: and rbx, MASK ; shl rbx, 6 ; add rbx, rdi
+    def line_piece(seq, what):
+        k = next((j for j, i in enumerate(seq) if i[1] == 'and' and ops(i)[0] == 'rbx'), None)
+        if k is None or k + 2 >= len(seq) or seq[k + 1][1] != 'shl' or seq[k + 2][1] != 'add':
+            # another way of forming the pointer than and / shl / add: not a form this rule reads
+            raise AnalysisBroken('X86-DSITEM: %s is not formed by `and rbx, mask ; shl rbx, n ; add rbx, reg`' % what)
+        a, b, c = seq[k], seq[k + 1], seq[k + 2]
+        try:
+            mv = int(ops(a)[1], 0)
+        except ValueError:
+            mv = None
+        R.check(mv == cmask and b[1] == 'shl' and ops(b) == ['rbx', '0x6'] and c[1] == 'add' and ops(c) == ['rbx', 'rdi'], what, src,
+                expected='cache memory (rdi) + (rbx & %#x) * 64' % cmask, found='%s %s ; %s %s ; %s %s' % (a[1], a[2], b[1], b[2], c[1], c[2]))
+    line_piece(ins, 'first cache line')
+    # (b) mixing
+    ld = o.between('randomx_sshash_load', 'randomx_sshash_prefetch')
+    got = sorted((ops(i)[0], ops(i)[1]) for i in ld if i[1] == 'xor')
+    wantl = sorted(('r%d' % (8 + k), 'QWORD PTR [rbx%s]' % ('+%#x' % (8 * k) if k else '')) for k in range(8))
+    R.check(got == wantl, 'r(8+i) ^= word i of the line', src, expected=wantl[:3], found=got[:4])
+    line_piece(o.between('randomx_sshash_prefetch', 'randomx_sshash_end'), 'next cache line')
+    # (c) result store of the initialisation loop
+    a0 = o.sym('init_block_loop') if o.has('init_block_loop') else None
+    if a0 is None:
+        raise AnalysisBroken('X86-DSITEM: init_block_loop not found')
+    seq = o.between(a0, o.sym('randomx_program_epilogue'))
+    seq = seq[:next((k for k, i in enumerate(seq) if i[1].startswith('j')), len(seq))]
+    st = sorted((ops(i)[0], ops(i)[1]) for i in seq if i[1] == 'mov' and ops(i)[0].startswith('QWORD PTR [rsi'))
+    wants = sorted(('QWORD PTR [rsi%s]' % ('+%#x' % (8 * k) if k else ''), 'r%d' % (8 + k)) for k in range(8))
+    R.check(st == wants, 'result: r8..r15 at output + 8i', src, expected=wants[:3], found=st[:4])
+    adv = [(i[1], ops(i)) for i in seq if i[1] == 'add' and ops(i)[0] in ('rsi', 'rbp')]
+    R.check(sorted(adv) == sorted([('add', ['rbp', '0x1']), ('add', ['rsi', '0x40'])]), 'advance: one item, 64 bytes', src, expected='add rbp, 1 ; add rsi, 64', found=adv)
